@@ -501,5 +501,53 @@ def run(prog: Program) -> Results:
                         f"{key}: `{norm(n.ast)[:70]}` is reachable without clear_resolution_context({vparam}): an expression taken from "
                         f"another document keeps that document's chain, and `.value` on it answers from the unrelated document "
                         f"instead of raising ResolutionError")
+    # ---------------------------------------------------------------- R-C10-7 only declared formals are bound in the body
+    r7 = res.rule("R-C10-7", "a function body sees its formals, not everything the caller passed: in function_call_scope the "
+                  "parameter scope receives a binding only inside the loop over the declared formals (keyed by that formal's name) "
+                  "or for the single-identifier parameter — attributes passed through `...` stay unbound", floor=2)
+    fcs = prog.func("function_call_scope")
+    res.analysed_functions.add(fcs.key)
+    pscopes = {norm(d.targets[0]) for d in walk_no_nested(fcs.node) if isinstance(d, ast.Assign) and isinstance(d.value, ast.Call)
+               and callee(d.value) == "Scope" and any(k.arg == "owner" for k in d.value.keywords)}
+    pm10 = None
+    for c in walk_no_nested(fcs.node):
+        if isinstance(c, ast.Call) and isinstance(c.func, ast.Attribute) and c.func.attr in ("append", "extend", "insert", "__iadd__") \
+                and norm(c.func.value) in pscopes:
+            r7.instances += 1
+            from sa.util import parent_map as _pm
+            pm10 = pm10 or _pm(fcs.node)
+            cur, loop = c, None
+            while cur in pm10:
+                cur = pm10[cur]
+                if isinstance(cur, ast.For):
+                    loop = cur
+                    break
+            ok = False
+            why = "outside any loop over the formals"
+            if c.func.attr == "append" and c.args:
+                a = c.args[0]
+                if loop is not None and isinstance(loop.target, ast.Name):
+                    pv = loop.target.id
+                    # the appended binding is looked up / built under the formal's own name
+                    src = a
+                    if isinstance(a, ast.Name):
+                        ds = [d for d in ast.walk(loop) if isinstance(d, ast.Assign) and norm(d.targets[0]) == a.id]
+                        src = ds[0].value if len(ds) == 1 else a
+                    ok = f"{pv}.name" in norm(src)
+                    why = f"`{norm(src)[:50]}` is not keyed by `{pv}.name`"
+                elif loop is None:
+                    # single-identifier parameter: Binding(name=parameters.name, …)
+                    ok = isinstance(a, ast.Call) and callee(a) == "Binding" and any(k.arg == "name" and norm(k.value).endswith(".name") for k in a.keywords)
+                    why = "not a binding named after the parameter"
+            r7.ob(ok, {"write": norm(c)[:70]})
+            if not ok:
+                res.add("R-C10-7", (fcs.key, "parameter scope receives bindings that are not formals", c.func.attr), fcs.loc(c),
+                        f"function_call_scope: `{norm(c)[:70]}` ({why}): attributes the caller passes through `...` become names bound in "
+                        f"the body and shadow the enclosing let — `let b = 9; in ({{ a, ... }}: {{ x = b; }}) {{ a = 1; b = 2; }}` gives x = 2")
+    # ---------------------------------------------------------------- R-C10-8 (shared with R-C11-1): no aliasing between documents
+    from sa.rules.c11 import setter_copy_rule
+    r8 = res.rule("R-C10-8", "assigning through a reference installs a copy of the assigned expression: a result is never taken from "
+                  "an unrelated document because one object carries two documents' chains (shared with R-C11-1)", floor=1)
+    setter_copy_rule(prog, res, "R-C10-8", r8)
     res.assumptions = ["_CONTEXTS is an unlocked dict relying on the GIL", "precedence among let/rec/formals at equal depth is runtime structure"]
     return res
